@@ -2,7 +2,7 @@
 import json
 import random
 
-from vlib import Broken, Verdict, read_ndjson, write_ndjson, require_coverage
+from vlib import unreproduced as vlib_unreproduced, Broken, Verdict, read_ndjson, write_ndjson, require_coverage
 
 DESIGN_CFG = "SPECIFICATION Spec\nINVARIANTS OnlyAuthorised AnonOnlyDaemon DaemonNeedsBoth OnlyConfiguredModules DaemonReachable\nCHECK_DEADLOCK TRUE\n"
 GEN_CFG = "SPECIFICATION GenSpec\nINVARIANT Emit\nCHECK_DEADLOCK FALSE\n"
@@ -118,8 +118,7 @@ def check(w):
         byid = {s["id"]: s for s in scen}
         obs2, _ = run(w, [byid[i] for i in sorted(rej)], "confirm", gokr)
         rej2, _, _ = validate(w, obs2, "confirm")
-        if not rej2:
-            raise Broken("none of the %d rejections was reproduced on re-run: %s" % (len(rej), sorted(rej)[:8]))
+        vlib_unreproduced(v, rej, rej2, "rejected sessions", total=len(obs))
         for o in obs2:
             if o["id"] in rej2:
                 confirmed += 1
